@@ -13,8 +13,8 @@
      Change                            -> [annotate_change]
 
    The data source is a function to [lookup]: LOk history | LNotFound (an error for which
-   ds.NotFound is true) | LOther code (any other error).  ds.NotFound is assumed false for the
-   NoVisibleChildError created by findPrevious itself (true of osm.HistoryDatasource). *)
+   ds.NotFound is true) | LOther code (any other error).  What ds.NotFound answers for the
+   NoVisibleChildError created by findPrevious itself is the parameter [nft]. *)
 From Coq Require Import ZArith List Bool.
 Import ListNotations.
 Open Scope Z_scope.
@@ -68,58 +68,67 @@ Definition find_previous_elem (ds : datasource) (ign : bool) (e : elem) : fp_res
       end
   end.
 
-(* checkErr(ds, ignoreMissing, err, id) *)
-Definition check_err (ign : bool) (r : fp_res) (e : elem) : option error :=
+(* checkErr(ds, ignoreMissing, err, id).  [nft] is the data source's answer ds.NotFound(err) when
+   err is the NoVisibleChildError made by findPrevious itself (false for osm.HistoryDatasource;
+   the interface does not say): the outcome does not depend on it (C13_not_found_irrelevant). *)
+Definition check_err (nft ign : bool) (r : fp_res) (e : elem) : option error :=
   match r with
   | FOld _ | FNil => None
   | FDsNotFound => if ign then None else Some (ENoVisibleChild (e_kind e) (e_id e))
-  | FNoVisible k id => Some (ENoVisibleChild k id)
+  | FNoVisible k id =>
+      if nft then (if ign then None else Some (ENoVisibleChild (e_kind e) (e_id e)))
+      else Some (ENoVisibleChild k id)
   | FDsOther c => Some (EOther c)
   end.
 
 Definition create_action (e : elem) : action := mkAction TCreate (Some (set_vis e true)) None None.
 
 (* one `for _, x := range o.Xs { ... }` loop of addUpdate *)
-Fixpoint add_update_loop (ds : datasource) (ign : bool) (ty : atype) (vis : bool)
+Fixpoint add_update_loop (nft : bool) (ds : datasource) (ign : bool) (ty : atype) (vis : bool)
          (es : list elem) (acts : list action) : list action + error :=
   match es with
   | [] => inl acts
   | e :: r =>
       let fr := find_previous_elem ds ign e in
-      match check_err ign fr e with
+      match check_err nft ign fr e with
       | Some err => inr err
       | None =>
           match fr with
-          | FOld o => add_update_loop ds ign ty vis r
+          | FOld o => add_update_loop nft ds ign ty vis r
                         (acts ++ [mkAction ty None (Some o) (Some (set_vis e vis))])
-          | _ => add_update_loop ds ign ty vis r (acts ++ [create_action e])
+          | _ => add_update_loop nft ds ign ty vis r (acts ++ [create_action e])
           end
       end
   end.
 
-Definition add_update (ds : datasource) (ign : bool) (ty : atype) (s : section) (acts : list action)
+Definition add_update (nft : bool) (ds : datasource) (ign : bool) (ty : atype) (s : section) (acts : list action)
   : list action + error :=
   let vis := match ty with TDelete => false | _ => true end in
-  match add_update_loop ds ign ty vis (s_nodes s) acts with
+  match add_update_loop nft ds ign ty vis (s_nodes s) acts with
   | inr e => inr e
   | inl a1 =>
-      match add_update_loop ds ign ty vis (s_ways s) a1 with
+      match add_update_loop nft ds ign ty vis (s_ways s) a1 with
       | inr e => inr e
-      | inl a2 => add_update_loop ds ign ty vis (s_rels s) a2
+      | inl a2 => add_update_loop nft ds ign ty vis (s_rels s) a2
       end
   end.
 
-Definition annotate_change (ds : datasource) (ign : bool) (c : change) : result :=
+Definition annotate_change (nft : bool) (ds : datasource) (ign : bool) (c : change) : result :=
   let cr := c_create c in
   let a0 := map create_action (s_nodes cr) ++ map create_action (s_ways cr) ++ map create_action (s_rels cr) in
-  match add_update ds ign TModify (c_modify c) a0 with
+  match add_update nft ds ign TModify (c_modify c) a0 with
   | inr e => RErr e
   | inl a1 =>
-      match add_update ds ign TDelete (c_delete c) a1 with
+      match add_update nft ds ign TDelete (c_delete c) a1 with
       | inr e => RErr e
       | inl a2 => ROk a2
       end
   end.
+
+(* results of the regenerated findPrevious functions and checkErr (VerifGen.GenChange, tied to
+   this model in C13/GenOk.v) *)
+Inductive fpg_res := FPG_DsErr (code : Z) | FPG_Nil | FPG_NoVisible | FPG_At (loc : Z).
+Inductive ce_res := CE_Nil | CE_NoVisible | CE_Same.
 
 (* a data source given as an association list (first match; absent = not found), as the
    harness describes osm.HistoryDatasource and its error-injecting wrapper *)
